@@ -151,6 +151,14 @@ func (x *Exec) invoke(fr *Frame, st *State, c *ssa.CallCommon, recv Value, args 
 	if m, ok := x.models[name]; ok {
 		return m(x, fr, st, append([]Value{recv}, args...), pos)
 	}
+	if pureIfaceMethods[name] {
+		var rets []Value
+		for i := 0; i < c.Signature().Results().Len(); i++ {
+			rets = append(rets, x.freshValue(st, "pure_"+c.Method.Name(), c.Signature().Results().At(i).Type()))
+		}
+		x.c.note("assumed: interface method %s only reads its arguments (results unconstrained)", name)
+		return []Outcome{{St: st, Kind: OutReturn, Rets: rets}}
+	}
 	return x.unknownCall(fr, st, "interface method "+name, c.Signature(), append([]Value{recv}, args...), false)
 }
 
